@@ -76,7 +76,23 @@ func genProtocol(p *pworld, run func(string) string, r *rng.R, maxOps int) {
 	run("pinit")
 	n := r.Range(4, maxOps)
 	for i := 0; i < n; i++ {
-		switch r.Pick(30, 30, 18, 12) {
+		switch r.Pick(30, 30, 18, 12, 5, 5) {
+		case 4:
+			// a local allocator close to the logical limit: the global request has to carry into the
+			// physical part when it re-adds its count (afterwards every memory is small again)
+			f := strings.Fields(p.view())
+			d := r.Range(1, 2)
+			var ms, l int64
+			fmt.Sscanf(strings.ReplaceAll(f[d], ":", " "), "%d %d", &ms, &l)
+			c := []int{100, 200}[r.Intn(2)]
+			run(fmt.Sprintf("setts %d %d %d", d, ms+int64(r.Range(1, 3)), 65536-r.Range(2, c-10)))
+			run(fmt.Sprintf("req 0 %d", c))
+			run("pinit")
+		case 5:
+			// requests that cannot be served within one millisecond (monitor only: the retry loop and the
+			// updater daemon interleave freely); the views are re-read afterwards
+			run(fmt.Sprintf("bigreq %d %d", r.Range(0, 2), []int{20000, 40000, 65535, 65536, 70000}[r.Intn(5)]))
+			run("pinit")
 		case 0:
 			run(fmt.Sprintf("req %d %d", r.Range(1, 2), []int{1, 1, 2, 5, 50}[r.Intn(5)]))
 		case 1:
